@@ -74,6 +74,7 @@ theorem queuedAt_nil_of_no_round {ev : List Event} {r : Nat}
   | queue r' k cs => simp [h r' k cs he]
   | sleep _ => rfl
   | sleepCut _ => rfl
+  | sleepLeft _ => rfl
 
 /-- after the wait phase, a call of the round whose answer is a success holds exactly that success
 (handled or swept) and is not retried -/
@@ -272,5 +273,133 @@ theorem loop_events {b0 : List Nat} {rounds : List Round} {r : Nat} {batch : Lis
           · intro r' k cs hm
             have := htail _ hm
             simp [isSleep] at this
+
+theorem isBackoff_isRetry {a : Ans} (h : isBackoff a = true) : isRetry a = true := by
+  cases a with
+  | fail cls t => cases cls <;> simp_all [isBackoff, isRetry]
+  | _ => simp [isBackoff] at h
+
+/-- The wait phase of a round in which no select sees the batch context done: every call of the
+round is handled, in wait order. -/
+theorem round_flat_uncut {b0 : List Nat} {rd : Round} {batch : List Nat} {st : St} {a : Acc}
+    (h : waitAll b0 rd.ans (cancelPos rd.cancel) (groups rd batch) 0 (acc0 st) = .ok a)
+    (hnd : ctxDoneAfterWait rd.cancel = false) :
+    ∃ pre : List Nat, (∀ c, c ∈ pre ↔ c ∈ batch) ∧ a.interrupted = false ∧
+      a.res = pre.foldl (wr1 b0 rd.ans) st.res ∧
+      a.retries = pre.filter (fun c => isRetry (rd.ans c)) ∧
+      a.needBackoff = pre.any (fun c => isBackoff (rd.ans c)) ∧
+      a.allOK = (st.allOK && pre.all (fun c => isOkAns (rd.ans c))) := by
+  have hint : a.interrupted = false := by
+    rw [cancelPos_none_of_not_done hnd] at h
+    exact waitAll_no_cancel h rfl
+  obtain ⟨pre, post, hm, hpost0, hres, hret, hnb, _, hall, _⟩ := round_flat h
+  have hp := hpost0 hint
+  subst hp
+  exact ⟨pre, fun c => by simpa using hm c, hint, by simpa [sweep] using hres, hret, hnb, by simpa using hall⟩
+
+/-- **A pass that backs off because of a `RetryableError` is followed by another pass only if some
+call about to be retried has not given up**: whenever something is queued in round `r' + 1` and
+some call queued in round `r'` was answered with an error that asks for a back-off, some call
+queued in round `r'` was answered with an error that is retried and its own context was not seen
+done by the back-off sleep (it has none, or it is alive). -/
+theorem loop_backoff_waiter {b0 : List Nat} {rounds : List Round} {r : Nat} {batch : List Nat} {st : St}
+    {R : Result} (h : loop b0 rounds r batch st = .ok R) (hb : ∀ c ∈ batch, c ∈ b0)
+    (hl : st.res.length = b0.length) (hbo : st.backoff ≠ 0) {new : List Event}
+    (hnew : R.events = st.events ++ new) :
+    ∀ c r' rd, r ≤ r' → Sent new (r' + 1) c → rounds[r' - r]? = some rd →
+      (∃ d, Sent new r' d ∧ isBackoff (rd.ans d) = true) →
+      ∃ d, Sent new r' d ∧ isRetry (rd.ans d) = true ∧ rd.gaveUp d = false := by
+  induction rounds generalizing r batch st new with
+  | nil => simp [loop] at h
+  | cons rd rest ih =>
+    intro c r' rd' hle hs hrd' hbk
+    rcases loop_cons h with ⟨hany, rfl⟩ | ⟨hany, a, ha, hcase⟩
+    · have : new = [] := by simpa using hnew
+      subst this
+      exact absurd hs sent_nil
+    · have hb' : ∀ c ∈ liveCalls rd batch, c ∈ b0 := fun c hc => hb c (liveCalls_sub hc)
+      have hl' : (afterLocate b0 rd batch st).res.length = b0.length := by simp [hl]
+      rcases hcase with ⟨tail, rfl, htail, _⟩ | ⟨hret, hnd, _⟩
+      · -- the loop ends after this pass: nothing is queued in a later round
+        have : new = queueEvents r rd (liveCalls rd batch) ++ tail := by
+          have := hnew
+          simp only [List.append_assoc] at this
+          exact (List.append_cancel_left this).symm
+        subst this
+        rcases sent_append.mp hs with hs | hs
+        · have := (sent_queueEvents.mp hs).1; omega
+        · exact absurd hs (not_sent_sleepCut htail)
+      · rcases loop_cons_next h hany ha hret hnd with ⟨tail, rfl, _, htail⟩ | ⟨bo, imm, tail, htail, hrec, hbo', hgave⟩
+        · have : new = queueEvents r rd (liveCalls rd batch) ++ tail := by
+            have := hnew
+            simp only [List.append_assoc] at this
+            exact (List.append_cancel_left this).symm
+          subst this
+          rcases sent_append.mp hs with hs | hs
+          · have := (sent_queueEvents.mp hs).1; omega
+          · exact absurd hs (not_sent_sleepCut htail)
+        · obtain ⟨pre, hmem, _, hres, hretries, hnb, _⟩ := round_flat_uncut ha hnd
+          have hsub : ∀ c ∈ a.retries, c ∈ liveCalls rd batch := by
+            rw [hretries]; intro c hc; exact (hmem c).mp (List.mem_filter.mp hc).1
+          have hal : a.res.length = b0.length := by rw [hres]; simp [hl]
+          obtain ⟨new', hev', h1, _⟩ := loop_events hrec (fun c hc => hb' c (hsub c hc)) hal
+          have hnew' : new = queueEvents r rd (liveCalls rd batch) ++ tail ++ new' := by
+            have := hnew
+            rw [hev'] at this
+            simp only [List.append_assoc] at this
+            simpa [List.append_assoc] using (List.append_cancel_left this).symm
+          have hlater : ∀ {x y : Nat}, Sent new' x y → r + 1 ≤ x := by
+            rintro x y ⟨k, cs, hm, _⟩; exact h1 x k cs hm
+          -- what of `new` is sent in a round: this pass's `QueueBatch`es or the later passes'
+          have hsplit : ∀ {x y : Nat}, Sent new x y → (x = r ∧ y ∈ liveCalls rd batch) ∨ Sent new' x y := by
+            intro x y hxy
+            rw [hnew'] at hxy
+            rcases sent_append.mp hxy with hxy | hxy
+            · rcases sent_append.mp hxy with hxy | hxy
+              · exact Or.inl (sent_queueEvents.mp hxy)
+              · exact absurd hxy (not_sent_sleep htail)
+            · exact Or.inr hxy
+          by_cases heq : r' = r
+          · subst heq
+            simp only [Nat.sub_self, List.getElem?_cons_zero, Option.some.injEq] at hrd'
+            subst hrd'
+            obtain ⟨d, hsd, hbd⟩ := hbk
+            have hdl : d ∈ liveCalls rd batch := by
+              rcases hsplit hsd with h' | h'
+              · exact h'.2
+              · have := hlater h'; omega
+            have hneed : a.needBackoff = true := by
+              rw [hnb]; exact List.any_eq_true.mpr ⟨d, (hmem d).mpr hdl, hbd⟩
+            have hg := hgave hneed hbo
+            obtain ⟨e, he, hge⟩ : ∃ e ∈ a.retries, rd.gaveUp e = false := by
+              have : ¬ (∀ e ∈ a.retries, rd.gaveUp e = true) := by
+                intro hall
+                rw [List.all_eq_true.mpr hall] at hg; cases hg
+              apply Classical.byContradiction
+              intro hcon
+              apply this
+              intro e he
+              cases hge : rd.gaveUp e
+              · exact absurd ⟨e, he, hge⟩ hcon
+              · rfl
+            refine ⟨e, ?_, ?_, hge⟩
+            · rw [hnew']
+              exact sent_append.mpr (Or.inl (sent_append.mpr (Or.inl (sent_queueEvents.mpr ⟨rfl, hsub e he⟩))))
+            · rw [hretries] at he; exact (List.mem_filter.mp he).2
+          · have hlt : r + 1 ≤ r' := by omega
+            have hs' : Sent new' (r' + 1) c := by
+              rcases hsplit hs with h' | h'
+              · omega
+              · exact h'
+            have hidx : r' - r = (r' - (r + 1)) + 1 := by omega
+            rw [hidx, List.getElem?_cons_succ] at hrd'
+            obtain ⟨d, hsd, hbd⟩ := hbk
+            have hsd' : Sent new' r' d := by
+              rcases hsplit hsd with h' | h'
+              · omega
+              · exact h'
+            obtain ⟨e, hse, hre, hge⟩ :=
+              ih hrec (fun c hc => hb' c (hsub c hc)) hal (hbo' hbo) hev' c r' rd' hlt hs' hrd' ⟨d, hsd', hbd⟩
+            exact ⟨e, by rw [hnew']; exact sent_append.mpr (Or.inr hse), hre, hge⟩
 
 end GV.Batch
